@@ -270,6 +270,14 @@ def check_C02(ctx):
                        "distinct_nontrivial = cycles in which a warrior died in a multi-warrior battle + cycles with a queue at the process limit.")
     ctx.cov["trusted_base"] = ["harness/enc.go tables", "generic core diff", "harness stop-rule loop (checked by TLC: ~InProgress at the twin event)", "TLC", "Json module"]
     spec_battle_model(ctx)
+    # the process queue itself: ring buffer refines a FIFO (Queue.tla); witness operation sequences replayed on the real queue
+    import asm_checks
+    qpath, qn, qr = asm_checks.tlc_cases(ctx, "Queue_emit.cfg", module="Queue")
+    qout = os.path.join(ctx.sub("queue"), "q")
+    qst = ctx.harness_json(["queue", "-in", qpath, "-out", qout])
+    ctx.notes["process_queue_model"] = "Queue.tla: %d states, Refines/Bounded/LastOK hold; %d witness operation sequences (%d operations) replayed on the real queue" % (qr["distinct"], qst["cases"], qst["ops"])
+    for e in read_lines(qout + ".000.ndjson")[:5]:
+        ctx.violation("C02 process queue", "queue of size %d, operations %s (>=0 push, -1 pop): %s" % (e["size"], e["ops"], e["diff"]), dict(kind="queue", case=e["case"]))
     n = 1500 if ctx.quick else 40000
     shards, st = gen_battles(ctx, "battles", ["-shards", 16 if ctx.quick else 64, "-n", n], "bt")
     s2, st2 = gen_battles(ctx, "battles", ["-shards", 8, "-n", n // 3, "-hostile"], "bh")
@@ -490,6 +498,17 @@ def replay_apicase(ctx, payload):
     ctx.cov["traces_validated_against_impl"] = 1
     if st["mismatches"]:
         ctx.violation(payload["signature"], payload["what"], dict(kind="apicase", case=payload["case"]))
+
+
+def replay_queue(ctx, payload):
+    d = ctx.sub("replay")
+    src = os.path.join(d, "case.ndjson")
+    open(src, "w").write(json.dumps(payload["case"]) + "\n")
+    st = ctx.harness_json(["queue", "-in", src, "-out", os.path.join(d, "o")])
+    ctx.cov["evaluations"] = 1
+    ctx.cov["traces_validated_against_impl"] = 1
+    if st["mismatches"]:
+        ctx.violation(payload["signature"], payload["what"], dict(kind="queue", case=payload["case"]))
 
 
 def replay_api(ctx, payload):
